@@ -635,3 +635,23 @@ func sameSSAExpr(a, b ssa.Value, depth int) bool {
 	}
 	return false
 }
+
+// copyStateless copies the effect rules E1 (no write through shared reader /
+// merged-view objects on the read path) and E3 (no package-level state) into a
+// report under another rule name: what a read returns is then a function of the
+// table bytes and the arguments only, never of earlier reads.
+func copyStateless(p *Program, r *Report, rule, what string) {
+	r2 := newReport(r.Property, r.Tier, r.Seed)
+	checkEffects(p, r2)
+	for k, o := range r2.Obl {
+		if o.Rule != "E1" && o.Rule != "E3" {
+			continue
+		}
+		key := strings.TrimPrefix(strings.TrimPrefix(k, "E1 / "), "E3 / ")
+		if v, bad := r2.Viol[k]; bad {
+			r.violate(rule, key, v.Where, what+": "+v.Message, nil)
+		} else {
+			r.ok(rule, key, o.Note)
+		}
+	}
+}
